@@ -125,6 +125,26 @@ impl LengthPrefixedFramer {
   }
 }
 
+impl LengthPrefixedFramer {
+  /// Largest plaintext carried by one record: the u16 length prefix counts the
+  /// ciphertext, which is the plaintext plus a 16-byte tag for CURVE and Noise.
+  const MAX_RECORD_PLAINTEXT: usize = u16::MAX as usize - 16;
+
+  /// Encrypts `plaintext` as one or more length-prefixed records. The reader
+  /// concatenates the plaintext of consecutive records, so splitting is transparent.
+  fn seal_records(&mut self, plaintext: &[u8]) -> Result<Bytes, ZmqError> {
+    let mut out = BytesMut::with_capacity(plaintext.len() + 18 * (1 + plaintext.len() / Self::MAX_RECORD_PLAINTEXT));
+    for chunk in plaintext.chunks(Self::MAX_RECORD_PLAINTEXT) {
+      let ciphertext = self.cipher.encrypt(chunk)?;
+      let len = u16::try_from(ciphertext.len())
+        .map_err(|_| ZmqError::InvalidMessage("Encrypted record exceeds 65535 bytes".into()))?;
+      out.put_u16(len);
+      out.extend_from_slice(&ciphertext);
+    }
+    Ok(out.freeze())
+  }
+}
+
 impl ISecureFramer for LengthPrefixedFramer {
   fn try_read_msg(&mut self, network_buffer: &mut BytesMut) -> Result<Option<Msg>, ZmqError> {
     loop {
@@ -151,19 +171,11 @@ impl ISecureFramer for LengthPrefixedFramer {
 
   fn write_msg_multipart(&mut self, msgs: FrameBatch) -> Result<Bytes, ZmqError> {
     let plaintext = self.framer.frame_contiguous(&[msgs])?;
-    let ciphertext = self.cipher.encrypt(&plaintext)?;
-    let mut out = BytesMut::with_capacity(2 + ciphertext.len());
-    out.put_u16(ciphertext.len() as u16);
-    out.extend_from_slice(&ciphertext);
-    Ok(out.freeze())
+    self.seal_records(&plaintext)
   }
 
   fn write_msg_batch(&mut self, batch: &[FrameBatch]) -> Result<Bytes, ZmqError> {
     let plaintext = self.framer.frame_contiguous(batch)?;
-    let ciphertext = self.cipher.encrypt(&plaintext)?;
-    let mut out = BytesMut::with_capacity(2 + ciphertext.len());
-    out.put_u16(ciphertext.len() as u16);
-    out.extend_from_slice(&ciphertext);
-    Ok(out.freeze())
+    self.seal_records(&plaintext)
   }
 }
